@@ -6,6 +6,7 @@
 //! (used for replay and shrinking).  A case line alone determines what is run.
 mod common;
 mod c20;
+mod parse;
 
 use common::Args;
 
@@ -14,6 +15,11 @@ fn main() {
     common::quiet_panics();
     let (gen, eval): (fn(&Args, &mut common::Out), fn(&str) -> String) = match args.family.as_str() {
         "c20" => (c20::generate, c20::eval),
+        "c01" => (parse::generate_c01, parse::eval_c01),
+        "c02" => (parse::generate_c02, parse::eval_c02),
+        "c05" => (parse::generate_c05, parse::eval_c05),
+        "c07" => (parse::generate_c07, parse::eval_c07),
+        "c12" => (parse::generate_c12, parse::eval_c12),
         other => {
             eprintln!("unknown family {other}");
             std::process::exit(2);
